@@ -11,7 +11,7 @@ MANIFEST = dict(
    engine="tlc-slotseq", path="spec/SlotSeq",
    technique="TLA+ monitor + implementation model checked exhaustively by TLC; TLC-generated transition cover and random histories replayed into the real SlotSequencer/SlotOffsetter on a real ByteBuffer; recorded traces validated by TLC against the monitor",
    text="Exhaustive TLC check of SlotSeqImpl (save area of the ByteBuffer as tokens, the Fenwick array with the bit arithmetic of util/fenwick_tree.go, the sorted slot list with its insertion, byte and slot limits, offsetter reset when the sequencer empties, and a caller following the documented workflow Write-Commit-Save-Push ... Pop-SavedSlot-Discard, discarding the just-saved tail after a refused Push, with readable and uncommitted bytes coming and going behind the save area) composed with the monitor SlotSeqMon (save area = concatenation of parked packets in save order, map sequence number -> packet), for all interleavings of pushes (any order, duplicates, all sizes of the bound) and pops (present and absent numbers) of unbounded length, in sequencers that drain and that never do, within and beyond both limits; the same for a bare SlotOffsetter (Add/Offset) with and without reset. Every transition of the state graph is replayed on the real objects and the recorded trace - result of every Push/Pop, SavedSlot(slot) before Discard, Saved()/Data()/write area, Bytes(), Size() after every call - is validated by TLC against the monitor; seeded random long histories with more sequence numbers and larger limits are added, also at 50 bytes per token. Verdicts come only from recorded real-code traces.",
-   note="Trusted: TLC, the Go replay driver (block generator/projection), JSON trace I/O. A Push that fails with an error while both limits have room (virtual index space of the offsetter exhausted in a sequencer that never drains) is accepted by the monitor - the statement only demands that limits are reported as errors - and counted in the evidence (push_errors_within_both_limits). PopRange is unexported and unused; not covered.",
+   note="Trusted: TLC, the Go replay driver (block generator/projection), JSON trace I/O. A Push that fails with an error while both limits have room (virtual index space of the offsetter exhausted in a sequencer that never drains) is accepted by the monitor - the statement only demands that limits are reported as errors - and counted in the evidence (outcomes.push_error_within_both_limits). PopRange is unexported and unused; not covered.",
    design_ref="5/C20")
 
 BOUNDS = {   # name -> constants
@@ -149,7 +149,7 @@ def run(ck):
         "a packet is identified by (sequence number, variant) and its tokens are a function of both, so a re-pushed number can carry other bytes than the stored one",
         "the caller follows the documented workflow: Save and Push only with nothing behind the save area, Pop only after the previous popped slot was discarded, a refused Push is followed by Discard of the just-saved tail",
         "mode off: the caller keeps the slots returned by SlotOffsetter.Add and calls Offset exactly once per slot; with ResetOnEmpty it resets the offsetter when it holds no slot (what SlotSequencer does)",
-        "a Push error while both limits have room is accepted (counted as push_errors_within_both_limits)"]
+        "a Push error while both limits have room is accepted (counted as outcomes.push_error_within_both_limits)"]
 
 
 def replay(ck, path):
